@@ -103,8 +103,9 @@ CLAIMED = {
         "emits the behaviours; the harness runs them through every constructor route (from_hz_to_hz, scale_hz, scale_playback_hz, scale_sample_hz, "
         "the three setters, mul_hz) on f64/f32/i16/u8 mono and stereo over instrumented sources, plus random non-dyadic ratios and long runs "
         "(10k / 100k outputs); TLC validates pull counts and exhaustion flags exactly (the f64 accumulator is modelled bit-exactly), Floor frames "
-        "exactly and Linear frames exactly on the exact domain, else within 4 ulp at the operands' scale / < 1 LSB.",
-   note="Trusted: TLC, Big/Dyadic, the fixed-point accumulator model (cross-checked against Dyadic by MC_ConverterFix), harness loggers. "
+        "exactly and Linear frames exactly on the exact domain, else within 4 ulp at the operands' scale / < 1 LSB. Thorough adds the Apalache "
+        "inductive invariant of ConverterAbs (the accumulator loop in fixed point for ANY unit, per-frame ratio sequence and number of outputs).",
+   note="Trusted: TLC, Apalache (thorough), Big/Dyadic, the fixed-point accumulator model (cross-checked against Dyadic by MC_ConverterFix), harness loggers. "
         "Ratios restricted to 0 or [2^-31, 2^23). Sinc interpolation is C18.",
    design="5/C08"),
  "C09": dict(
